@@ -6,7 +6,7 @@
    errors are raised exactly when the specification says so. *)
 From Coq Require Import List ZArith Bool Arith Lia.
 From SC Require Import Base.Res Base.PyList Inst.Heap Inst.ClassTable Inst.Model Inst.Canon
-  Inst.Abs Inst.SpecHelpers Inst.ElemProofs Inst.Framed Inst.RefineProofs Inst.CopyProofs Inst.CopyStore
+  Inst.Abs Inst.SpecHelpers Inst.ElemProofs Inst.Framed Inst.RefineProofs Inst.CopyProofs Inst.ElemRefineDep Inst.CopyStore
   Inst.ElemRefine Inst.ElemRefine2 Inst.ElemRefine4 Inst.ElemRefine5.
 Import ListNotations.
 Open Scope nat_scope.
@@ -47,7 +47,7 @@ Section CopyRef.
 
   Lemma mutate_attr_copy_ref l a lv ov s c d k :
     nth_error (heap s) l = Some (OInst c d) -> lookup_cls ct c = Some k ->
-    c_dnc k = false -> c_post_copy k = None -> no_inval k -> flat_fields (heap s) d -> NoDup (map fst d) ->
+    c_dnc k = false -> c_post_copy k = None -> no_dep k a -> flat_fields (heap s) d -> NoDup (map fst d) ->
     assoc A_INITIALIZING d = None -> a <> A_INITIALIZING ->
     nth_error (heap s) lv = Some ov -> scalar_obj ov = true -> same_object (assoc a d) (VRef lv) = false ->
     exists l' s',
@@ -81,7 +81,7 @@ Section CopyRef.
                      | None => ret tt end) = ret tt) by (destruct (lookup_attr k a); reflexivity).
       rewrite Etc, bind_ret. rewrite Hdnc, Hso. cbn [orb negb andb].
       rewrite bind_assoc. rewrite (bind_ok _ _ _ _ _ Hdc). cbn [loc_of]. rewrite !bind_ret.
-      rewrite (bind_ok _ _ _ _ _ (thawed_store_run ct rec l' a (VRef lv) s2 c d' k Hcell' Hc Hni Hinit')).
+      rewrite (bind_ok _ _ _ _ _ (thawed_store_run_nodep ct rec l' a (VRef lv) s2 c d' k Hcell' Hc Hni Hinit')).
       reflexivity.
     - intros i Hi. rewrite heap_upd, set_nth_other by lia. now apply Hsame.
     - intro n.
@@ -135,7 +135,7 @@ Section CopyFrame.
   Hypothesis Hd : NoDup (map fst d).
   Hypothesis Hdnc : c_dnc k = false.
   Hypothesis Hpc : c_post_copy k = None.
-  Hypothesis Hni : no_inval k.
+  Hypothesis Hni : no_dep k a.
   Hypothesis Hcoll : ty_is_collection (a_ty sp) = true.
   Hypothesis Hfld : assoc a d = Some (VRef lc).
   Hypothesis Hlc : nth_error (heap s) lc = Some o.
@@ -167,7 +167,7 @@ Section CopyFrame.
     assert (a_is_missing (aobj o) = false) as -> by (destruct o; try reflexivity).
     cbn [sbind]. rewrite Hr.
     destruct r as [c'| | |]; cbn [sbind]; auto.
-    unfold invalidate, cls_for. rewrite Hc. cbn [sbind]. rewrite invalidatees_none by auto. reflexivity.
+    unfold invalidate, cls_for. rewrite Hc. cbn [sbind]. rewrite invalidatees_nodep by auto. reflexivity.
   Qed.
 
   (* CollectionAttrMutator.__init__ without inplace: the container is protected by a copy *)
@@ -251,7 +251,7 @@ End CopyFrame.
 (* the frame for an edit that leaves the state alone but for the container cell *)
 Theorem fc_whole ct h0 l a c d k sp s lc o :
   nth_error (heap s) l = Some (OInst c d) -> lookup_cls ct c = Some k -> lookup_attr k a = Some sp ->
-  NoDup (map fst d) -> c_dnc k = false -> c_post_copy k = None -> no_inval k ->
+  NoDup (map fst d) -> c_dnc k = false -> c_post_copy k = None -> no_dep k a ->
   ty_is_collection (a_ty sp) = true -> assoc a d = Some (VRef lc) -> nth_error (heap s) lc = Some o ->
   scalar_obj o = true -> flat_fields (heap s) d -> assoc A_INITIALIZING d = None -> a <> A_INITIALIZING ->
   forall (tail : val -> M val) (pe : obj + err),
@@ -419,7 +419,7 @@ Section CopyList.
   Hypothesis Hd : NoDup (map fst d).
   Hypothesis Hdnc : c_dnc k = false.
   Hypothesis Hpc : c_post_copy k = None.
-  Hypothesis Hni : no_inval k.
+  Hypothesis Hni : no_dep k a.
   Hypothesis Hty : a_ty sp = TList ity.
   Hypothesis Hdepth : ty_depth ity < FUEL.
   Hypothesis Hfld : assoc a d = Some (VRef lc).
@@ -568,7 +568,7 @@ Section CopyDict.
   Hypothesis Hd : NoDup (map fst d).
   Hypothesis Hdnc : c_dnc k = false.
   Hypothesis Hpc : c_post_copy k = None.
-  Hypothesis Hni : no_inval k.
+  Hypothesis Hni : no_dep k a.
   Hypothesis Hty : a_ty sp = TDict tk tv.
   Hypothesis Hdk : ty_depth tk < FUEL.
   Hypothesis Hdv : ty_depth tv < FUEL.
@@ -692,7 +692,7 @@ Section CopySet.
   Hypothesis Hd : NoDup (map fst d).
   Hypothesis Hdnc : c_dnc k = false.
   Hypothesis Hpc : c_post_copy k = None.
-  Hypothesis Hni : no_inval k.
+  Hypothesis Hni : no_dep k a.
   Hypothesis Hty : a_ty sp = TSet ity.
   Hypothesis Hdepth : ty_depth ity < FUEL.
   Hypothesis Hfld : assoc a d = Some (VRef lc).
